@@ -533,16 +533,16 @@ SpecFine == Init /\ [][NextFine /\ UNCHANGED opt]_vars
 \* weak fairness on the library's own steps (not on the environment)
 Fairness ==
   /\ \A p \in Pipe :
-       /\ WF_vars(HookAttaching(p)) /\ WF_vars(HookAttachingRet(p))
-       /\ WF_vars(HookAttached(p)) /\ WF_vars(HookAttachedRet(p))
-       /\ WF_vars(\E a \in BOOLEAN : AddPipeCheck(p, a))
-       /\ WF_vars(CloseLocked(p)) /\ WF_vars(RunDetached(p)) /\ WF_vars(RunIdFree(p))
-       /\ WF_vars(NoticeDrop(p)) /\ WF_vars(RunClose(p)) /\ WF_vars(CloseNoop(p))
+       /\ WF_vars((HookAttaching(p)) /\ UNCHANGED opt) /\ WF_vars((HookAttachingRet(p)) /\ UNCHANGED opt)
+       /\ WF_vars((HookAttached(p)) /\ UNCHANGED opt) /\ WF_vars((HookAttachedRet(p)) /\ UNCHANGED opt)
+       /\ WF_vars((\E a \in BOOLEAN : AddPipeCheck(p, a)) /\ UNCHANGED opt)
+       /\ WF_vars((CloseLocked(p)) /\ UNCHANGED opt) /\ WF_vars((RunDetached(p)) /\ UNCHANGED opt) /\ WF_vars((RunIdFree(p)) /\ UNCHANGED opt)
+       /\ WF_vars((NoticeDrop(p)) /\ UNCHANGED opt) /\ WF_vars((RunClose(p)) /\ UNCHANGED opt) /\ WF_vars((CloseNoop(p)) /\ UNCHANGED opt)
   /\ \A d \in Dialer :
-       /\ WF_vars(RunRedial(d)) /\ WF_vars(DialAbort(d)) /\ WF_vars(DialBegin(d))
-       /\ WF_vars(RunPipeConnected(d)) /\ WF_vars(\E p \in Pipe : RunPipeClosed(d, p))
-  /\ WF_vars(\E tm \in timers : Fire(tm))
-  /\ \A l \in Listener : WF_vars(ServeStop(l))
+       /\ WF_vars((RunRedial(d)) /\ UNCHANGED opt) /\ WF_vars((DialAbort(d)) /\ UNCHANGED opt) /\ WF_vars((DialBegin(d)) /\ UNCHANGED opt)
+       /\ WF_vars((RunPipeConnected(d)) /\ UNCHANGED opt) /\ WF_vars((\E p \in Pipe : RunPipeClosed(d, p)) /\ UNCHANGED opt)
+  /\ WF_vars((\E tm \in timers : Fire(tm)) /\ UNCHANGED opt)
+  /\ \A l \in Listener : WF_vars((ServeStop(l)) /\ UNCHANGED opt)
 FairSpec == Spec /\ Fairness
 
 -----------------------------------------------------------------------------
@@ -621,6 +621,39 @@ Reconnects == \A d \in Dialer : (~dClosed[d] /\ dActive[d] /\ (Asynch(d) \/ \E i
 
 \* C12: a synchronous Dial that failed leaves the dialer diallable again
 SyncFailRetryable == \A d \in Dialer : (~Asynch(d) /\ dst[d] = "idle" /\ dialLog[d] # <<>> /\ \A i \in 1..Len(dialLog[d]) : dialLog[d][i][1] # "ok") => ~dActive[d]
+
+-----------------------------------------------------------------------------
+(* Liveness, checked by TLC under fairness (Core_live_*.cfg).  The library's own steps are weakly fair - goroutines  *)
+(* run, callbacks return, a Close that has begun goes on -, the environment (peers, the application, the network)   *)
+(* is not.  These are the "eventually" halves of C13 (every admitted connection's Detached is reported, its id is   *)
+(* released), C10 (Close returns; afterwards nothing is left) and C14 (a started dialer that lost its connection    *)
+(* tries again unless closed).  On executions the same facts are decided at the quiescent points (q lines); here    *)
+(* TLC looks for a fair cycle of the library's own steps on which they never come true.                             *)
+InLog(p, w) == \E i \in 1..Len(hookLog[p]) : hookLog[p][i] = w
+FairnessClose ==
+  /\ WF_vars((SockCloseProto) /\ UNCHANGED opt) /\ WF_vars((SockCloseAll) /\ UNCHANGED opt)
+  /\ \A l \in Listener : WF_vars((SockCloseL(l)) /\ UNCHANGED opt)
+  /\ \A d \in Dialer : WF_vars((SockCloseD(d)) /\ UNCHANGED opt)
+FairSpecFine == SpecFine /\ Fairness /\ FairnessClose
+
+\* C13: an admitted connection is reported Attached; once it is closed (by anybody), Detached is reported and the id released
+AttachedReported == \A p \in Pipe : added[p] ~> InLog(p, "attached")
+DetachedFollows  == \A p \in Pipe : (added[p] /\ closeStarted[p]) ~> InLog(p, "detached")
+IdReleased       == \A p \in Pipe : closeStarted[p] ~> (p \notin ids /\ p \notin listed)
+\* a connection whose peer went away is closed by the library itself
+DropNoticed      == \A p \in Pipe : (added[p] /\ ~tranOpen[p]) ~> closing[p]
+\* C10: Close, once begun, finishes; after it every connection the socket ever had is closed and nothing is held
+CloseFinishes    == (sockClosed # "open") ~> (sockClosed = "done")
+CloseReleases    == (sockClosed = "done") ~> (ids = {} /\ listed = {} /\ \A p \in Pipe : pst[p] # "unborn" => closing[p])
+\* addPipe returns (the accept loop / the Dial call gets control back) whatever happens to the connection meanwhile
+AddPipeReturns   == \A p \in Pipe : (pst[p] # "unborn") ~> AddPipeDone(p)
+\* C14: a dialer that lost its connection dials again, unless it is closed
+LostAt(d, i) == i \in 1..Len(dialLog[d]) /\ dialLog[d][i][1] = "lost"
+Redials == \A d \in Dialer : \A i \in 1..8 :
+   LostAt(d, i) ~> (dClosed[d] \/ \E j \in (i+1)..Len(dialLog[d]) : dialLog[d][j][1] = "attempt")
+\* C14: a closed dialer comes to rest: no attempt in progress, no timer, no goroutine of its own
+\* (an attempt that is inside the transport's Dial when the dialer is closed ends when the transport says so: environment)
+ClosedDialerRests == \A d \in Dialer : (dClosed[d] /\ dst[d] # "dialing") ~> (dst[d] \in {"idle", "adding", "dialing"} /\ <<"redial", d>> \notin async)
 
 TypeOK ==
   /\ pst \in [Pipe -> PST]
